@@ -1,10 +1,11 @@
 (* Wire dispatcher for the dirhash model, instantiated with the executable SHA-256.
      Hash1    L2 [L names; L entries]   entries: L2 [S name; S content] readable,
                                                  L1 [S name] open fails; absent = open fails
-     HashDir  L2 [S prefix; L entries]  entries = the tree (rel, content) / (rel) unreadable
-     DirFiles L2 [S prefix; L entries]  -> sorted list of names
+     HashDir  L3 [S dir; S prefix; L entries]  dir = the directory argument as spelled;
+                                        entries = the tree (rel, content) / (rel) unreadable
+     DirFiles L3 [S dir; S prefix; L entries]  -> sorted list of names
      HashZip  L entries                 entries of the archive in order
-     Join     L2 [S a; S b]             filepath.Join(a, b), b non-empty
+     Join     L2 [S a; S b]             filepath.Join(a, b)
      Hex      S bytes                   fmt %x
    results: ok S | err newline | err open <name> | err outside *)
 From Verif.Base Require Import Bytes Wire Hex SortStr Sha256.
@@ -61,18 +62,18 @@ Definition dispatch (f : str) (a : val) : val :=
     end
   else if str_eqb f (B "HashDir") then
     match a with
-    | VL [VS prefix; VL es] =>
+    | VL [VS dir; VS prefix; VL es] =>
         match entries_of es with
-        | Some t => result_val (hash_dir sha256 t prefix)
+        | Some t => result_val (hash_dir sha256 dir t prefix)
         | None => VBadCase
         end
     | _ => VBadCase
     end
   else if str_eqb f (B "DirFiles") then
     match a with
-    | VL [VS prefix; VL es] =>
+    | VL [VS dir; VS prefix; VL es] =>
         match entries_of es with
-        | Some t => VL (map VS (sort_strs (dir_files t prefix)))
+        | Some t => VL (map VS (sort_strs (dir_files dir t prefix)))
         | None => VBadCase
         end
     | _ => VBadCase
